@@ -37,25 +37,34 @@ type packWrites struct {
 	orders map[string]int // "H,Z" / "Z,H" -> removes (of a present, non-empty blob) that showed it
 	other  map[string]int // any other pattern (not modelled)
 	source string
+	// the same for the removes the child made with hole punching refused (zero-fill fallback)
+	ordersNP map[string]int
 }
 
-var packOrder = &packWrites{ready: make(chan struct{}), orders: map[string]int{}, other: map[string]int{}, source: "assumed (no system-call trace)"}
+var packOrder = &packWrites{ready: make(chan struct{}), orders: map[string]int{}, ordersNP: map[string]int{}, other: map[string]int{}, source: "assumed (no system-call trace)"}
 
 // removeOrders waits for the trace and returns the observed relative orders of header rewrite and
 // body release ("HZ", "ZH"); without an observation the order of dele.go as it was read (header
 // first) is assumed and said so in the evidence.
-func (p *packWrites) removeOrders() (orders []string, source string) {
+//
+// noPunch selects the observation of the removes made without hole punching (the zero-fill
+// fallback is other code than the punch: its order is observed separately).
+func (p *packWrites) removeOrders(noPunch bool) (orders []string, source string) {
 	<-p.ready
 	p.mu.Lock()
 	defer p.mu.Unlock()
-	for k := range p.orders {
+	m, src := p.orders, p.source
+	if noPunch {
+		m, src = p.ordersNP, p.source+", removes with the hole punch refused"
+	}
+	for k := range m {
 		orders = append(orders, strings.ReplaceAll(k, ",", ""))
 	}
 	sort.Strings(orders)
 	if len(orders) == 0 {
 		return []string{"HZ"}, "assumed"
 	}
-	return orders, p.source
+	return orders, src
 }
 
 var (
@@ -144,6 +153,8 @@ func syscallOrder(r *ev.Run, kind, scratch string, observeOnly bool) {
 	curNo := ""
 	var curPack []string // pack-file effects of the remove that is open, in trace order
 	removesSeen := 0
+	noPunchRound := false // the child said that from here on its removes are refused the hole punch
+	removesSeenNP, punchesInNP := 0, 0
 	acks, recvAcks, fsyncs, dataWrites := 0, 0, 0, 0
 	idxDir := filepath.Join(dir, "idx") + string(filepath.Separator)
 	isData := func(p string) bool {
@@ -191,7 +202,9 @@ func syscallOrder(r *ev.Run, kind, scratch string, observeOnly bool) {
 					continue
 				}
 				fs := strings.Fields(strings.ReplaceAll(q[1], `\n`, ""))
-				if len(fs) >= 4 && fs[0] == "B" {
+				if len(fs) >= 2 && fs[0] == "N" && fs[1] == "nopunch" {
+					noPunchRound = true
+				} else if len(fs) >= 4 && fs[0] == "B" {
 					cur, curNo = &hop{Recv: fs[2] == "R"}, fs[1]
 					fmt.Sscan(fs[3], &cur.B)
 					curPack = nil
@@ -205,8 +218,13 @@ func syscallOrder(r *ev.Run, kind, scratch string, observeOnly bool) {
 						if cur.B >= 0 && cur.B < len(w.Uni) {
 							size = len(w.Uni[cur.B].Data)
 						}
+						mode := ""
 						packOrder.mu.Lock()
 						switch {
+						case (pat == "H,Z" || pat == "Z,H") && noPunchRound:
+							packOrder.ordersNP[pat]++
+							removesSeenNP++
+							mode = " without hole punching"
 						case pat == "H,Z" || pat == "Z,H":
 							packOrder.orders[pat]++
 						case pat == "H" && size == 0:
@@ -214,7 +232,7 @@ func syscallOrder(r *ev.Run, kind, scratch string, observeOnly bool) {
 							packOrder.other[pat]++
 						}
 						packOrder.mu.Unlock()
-						r.Note("observed_pack_write_order", fmt.Sprintf("remove (body %s): %s", sizeClass(size), pat))
+						r.Note("observed_pack_write_order", fmt.Sprintf("remove%s (body %s): %s", mode, sizeClass(size), pat))
 					}
 					if cur.Recv && observeOnly {
 						dirtyRecv = map[string]int{}
@@ -249,6 +267,9 @@ func syscallOrder(r *ev.Run, kind, scratch string, observeOnly bool) {
 				switch {
 				case name == "fallocate":
 					e = "Z"
+					if noPunchRound {
+						punchesInNP++
+					}
 				case q != nil && name == "pwrite64" && reDeletedMarker.MatchString(q[1]):
 					e = "H"
 				case q != nil && reZeros.MatchString(q[1]):
@@ -277,6 +298,13 @@ func syscallOrder(r *ev.Run, kind, scratch string, observeOnly bool) {
 			packOrder.source = "strace of the " + kind + " child"
 			r.Note("events", "remove-pack-order-observed")
 		}
+		if len(packOrder.ordersNP) > 0 && punchesInNP == 0 {
+			r.Note("events", "remove-pack-order-observed-nopunch")
+		}
+		if punchesInNP > 0 {
+			r.Inconclusive(fmt.Sprintf("the traced child made %d fallocate call(s) on pack files after it had switched hole punching off: the diskpacked verif hook is not effective", punchesInNP))
+		}
+		r.Count("removes_with_pack_write_order_observed_nopunch", removesSeenNP)
 		for pat, n := range packOrder.other {
 			// the materialiser models one header rewrite and one body release per remove
 			r.Inconclusive(fmt.Sprintf("diskpacked remove changed the pack in a pattern the crash-state materialiser does not model: %q (%d removes; H = deleted-marker pwrite, Z = punch / zero fill)", pat, n))
